@@ -1,6 +1,6 @@
 """Free-text parts of MANIFEST.json."""
 HOOK_COMMITS = ["c7c6a9f"]
-FIX_COMMITS = ["e44ed8e", "9e8cd65", "2f294a3", "7529dc9", "48b06b7", "21a1bed", "47b50c4", "35f944d", "ba91c90", "3824d43", "b4402f4"]
+FIX_COMMITS = ["e44ed8e", "9e8cd65", "2f294a3", "7529dc9", "48b06b7", "21a1bed", "47b50c4", "35f944d", "ba91c90", "3824d43", "b4402f4", "30280c6"]
 NOTES = ("Runtime monitoring only: every check executes the real code of /repo under seeded workloads and decides with an oracle "
          "over what was observed. VERIF_SEED changes every random choice; VERIF_TIER overrides the tier. Exit 2 = build/harness failure "
          "(never a VIOLATION line). Known findings: /verif/known_findings.json. See DESIGN.md.")
